@@ -32,8 +32,8 @@ fn main() {
             "similarity scores are compared with tolerance 1e-5, everything else exactly (rows, nodes, edges as multisets)",
         ],
         parts: vec![
-            PropPart::new("rollback", 400, 12_000, prog::rollback_strategy, check::run).shrink_iters(1500).boxed(),
-            PropPart::new("retention", 48, 1_600, prog::retention_strategy, check::run).shrink_iters(24).boxed(),
+            PropPart::new("rollback", 1_000, 30_000, prog::rollback_strategy, check::run).shrink_iters(800).boxed(),
+            PropPart::new("retention", 64, 2_000, prog::retention_strategy, check::run).shrink_iters(24).boxed(),
             PropPart::new("burst", 16, 160, prog::burst_strategy, check::burst).shrink_iters(8).boxed(),
         ],
         children: vec![],
